@@ -46,7 +46,7 @@ func init() {
 			if tier == "thorough" {
 				n = 900
 			}
-			endings := []string{"duration", "trigger-duration", "limit", "cancel-before", "cancel-setup", "cancel-eval", "cancel-body", "cancel-out", "setup-fail", "setup-panic"}
+			endings := []string{"duration", "trigger-duration", "limit", "cancel-before", "cancel-setup", "cancel-eval", "cancel-body", "cancel-out", "setup-fail", "setup-panic", "duration-latecancel", "limit-latecancel"}
 			modes := []string{"constant", "staged", "ramp", "gaussian", "custom", "users", "file"}
 			var cs []core.Case
 			for i := 0; i < n; i++ {
@@ -73,7 +73,29 @@ func init() {
 				}
 				p.Spec.IgnoreDropped = true
 				p.Spec.CompletionMS = 150 + r.IntN(150)
+				if strings.HasSuffix(p.Ending, "-latecancel") {
+					// triggering stops by itself, the caller cancels while the run waits for held iterations
+					p.Blocking = "forever"
+					p.Spec.CompletionMS = 400 + r.IntN(300)
+				}
 				switch p.Ending {
+				case "duration-latecancel":
+					d := 150 + r.IntN(100)
+					p.Spec.MaxDurationMS = d
+					if mode == "file" {
+						p.Spec.YAML = strings.Replace(p.Spec.YAML, "max-duration: 60s", fmt.Sprintf("max-duration: %dms", d), 1)
+					}
+				case "limit-latecancel":
+					if c < 2 {
+						c = 2
+						p.Spec.Concurrency = 2
+					}
+					N := uint64(1 + r.IntN(c-1))
+					p.Spec.MaxIterations = N
+					p.Spec.MaxDurationMS = 20000
+					if mode == "file" {
+						p.Spec.YAML = c05FileYAML(c, "20s", N, "- duration: 15s\n  mode: users\n")
+					}
 				case "duration":
 					d := 150 + r.IntN(200)
 					p.Spec.MaxDurationMS = d
@@ -240,6 +262,10 @@ func c05Run(c *core.Case, o *core.Outcome) {
 		OnTriggerReturn: func() {
 			if trigCtx != nil && trigCtx.Err() == nil {
 				triggerReturnedBeforeCtxDone.Store(true)
+			}
+			if strings.HasSuffix(p.Ending, "-latecancel") {
+				markStop()
+				go func() { time.Sleep(60 * time.Millisecond); e.cancel() }()
 			}
 		},
 		OnRate: func(k int, _ time.Time, v int) int {
